@@ -348,6 +348,11 @@ def _build_registry():
     E("LRRP.get_token", lambda a: _lrrp_token(a), "int:0:400")
     E("TextMessagingService.from_bytes", lambda d: L("motorola.text_messaging_service:TextMessagingService").from_bytes(d), "vect")
     E("AutomaticRegistrationService.from_bytes", lambda d: L("motorola.automatic_registration_service:AutomaticRegistrationService").from_bytes(d), "veca")
+    # stateful parts of the library, each on a FRESH object per call (so the pristine oracle applies): they drag the handlers' and the
+    # tracker's code paths into the histories
+    E("RRSDatagramProtocol(fresh).datagram_received", lambda d: _fresh_rrs(d), "vecp:3242")
+    E("Terminal(fresh).process_incoming_burst x2", lambda a, b: _fresh_terminal([a, b]), "burst", "burst")
+    E("RepeaterStorage(fresh).match_incoming+patch", lambda a: _fresh_storage(a), "int:0:65535")
     # utils
     U = "utils.bits_bytes"
     E("bytes_to_bits", lambda d: L(U + ":bytes_to_bits")(d), "bytesm:0-40")
@@ -357,6 +362,62 @@ def _build_registry():
     E("numpy_array_to_bitarray", lambda a: L(U + ":numpy_array_to_bitarray")(a), "np:1-40")
     E("bitarray_to_numpy_array", lambda b: L(U + ":bitarray_to_numpy_array")(b), "bits:1-40")
     E("numpy_array_to_int", lambda a: L(U + ":numpy_array_to_int")(a), "np:1-40")
+
+
+def _fresh_rrs(d):
+    import asyncio
+
+    sent = []
+
+    class T(asyncio.DatagramTransport):
+        def sendto(self, data, addr=None):
+            sent.append(bytes(data).hex())
+
+        def is_closing(self):
+            return False
+
+    h = L("protocols.hytera.rrs_datagram_protocol:RRSDatagramProtocol")(3002)
+    h.connection_made(T())
+    handled, _ = h.datagram_received(d, ("10.0.0.2", 3002))
+    return [bool(handled), sent, h.hstrp_connected, sorted((k, v.name) for k, v in h.registry.items())]
+
+
+def _fresh_terminal(bursts):
+    import io
+    import sys
+
+    ev = []
+    TOI = L("transmission.transmission_observer_interface:TransmissionObserverInterface")
+
+    class O(TOI):
+        def transmission_started(self, transmission_type):
+            ev.append(("started", transmission_type.name))
+
+        def data_transmission_ended(self, transmission_header, blocks):
+            ev.append(("data_ended", len(blocks)))
+
+        def voice_transmission_ended(self, voice_header, blocks):
+            ev.append(("voice_ended", len(blocks)))
+
+    t = L("transmission.terminal:Terminal")(77, [O()])
+    out = []
+    old = sys.stdout
+    sys.stdout = io.StringIO()
+    try:
+        for b in bursts:
+            o = t.process_incoming_burst(L("etsi.layer2.burst:Burst").from_bytes(b), 1)
+            out.append([o.sequence_no, getattr(o.voice_burst, "name", None)])
+    finally:
+        sys.stdout = old
+    return [ev, out, t.timeslots[1].transmission.type.name]
+
+
+def _fresh_storage(a):
+    st = L("storage.repeater_storage:RepeaterStorage")()
+    addr = ("10.9.%d.%d" % (a >> 8, a & 255), 50000)
+    r = st.match_incoming(addr, auto_create=True, patch={"callsign": "OK%d" % a, "k": a})
+    r2 = st.match_incoming(addr)
+    return [len(st), r is r2, r.callsign, r.attr("k"), r.dmr_id, r.address_in]
 
 
 def _dh_default(a):
@@ -396,7 +457,23 @@ def _lrrp_token(a):
 # ------------------------------------------------------------------ argument generation (generation child; may call the library)
 
 
+_harvest_cache = {}
+
+
+def preload_cotenant():
+    """template-side preparation (imports and file reading only, no library call)"""
+    CHECKS["C19"].preload()
+    harvest(core.repo_root())
+
+
 def harvest(root):
+    if root in _harvest_cache:
+        return _harvest_cache[root]
+    _harvest_cache[root] = _harvest(root)
+    return _harvest_cache[root]
+
+
+def _harvest(root):
     vecs = set()
     for fn in glob.glob(os.path.join(root, "okdmr", "tests", "**", "*.py"), recursive=True):
         try:
@@ -598,6 +675,34 @@ class ArgGen:
         return f().hex()
 
 
+# ------------------------------------------------------------------ co-tenant activity for the other simulations
+
+
+def gen_cotenant(r, n=None):
+    """a few calls on other parts of the library, to be executed in the same process before/inside another check's simulation:
+    what the rest of an application does with the library while the handlers / the tracker run"""
+    _build_registry()
+    g = ArgGen(r, harvest(core.repo_root()))
+    names = sorted(ENTRIES)
+    ops = []
+    for _ in range(n if n is not None else r.choice([3, 8, 20])):
+        name = r.choice(names)
+        try:
+            ops.append({"entry": name, "args": [g.gen(sp) for sp in ENTRIES[name]["specs"]]})
+        except Exception:
+            pass
+    return ops
+
+
+def run_cotenant(ops):
+    _build_registry()
+    for op in ops or []:
+        ent = ENTRIES.get(op["entry"])
+        if ent is not None:
+            outcome_of(ent["fn"], [mat(x) for x in op["args"]])
+    return len(ops or [])
+
+
 # ------------------------------------------------------------------ the check
 
 
@@ -644,7 +749,8 @@ class C19(Check):
                   "hytera.hytera_ipsc:HyteraIPSC", "motorola.mbxml:MBXML", "motorola.lrrp:LRRP", "motorola.arrp:ARRP", "motorola.text_messaging_service:TextMessagingService",
                   "motorola.automatic_registration_service:AutomaticRegistrationService", "etsi.layer3.elements.service_options:ServiceOptions",
                   "etsi.layer3.pdu.udp_ipv4_compressed_header:UDPIPv4CompressedHeader", "etsi.layer2.pdu.pi_header:PIHeader", "etsi.layer2.pdu.short_link_control:ShortLinkControl",
-                  "etsi.layer2.pdu.full_link_control:FullLinkControl", "etsi.fec.hamming_7_4_3:Hamming743", "etsi.fec.hamming_17_12_3:Hamming17123", "etsi.fec.hamming_16_11_4:Hamming16114"):
+                  "etsi.layer2.pdu.full_link_control:FullLinkControl", "etsi.fec.hamming_7_4_3:Hamming743", "etsi.fec.hamming_17_12_3:Hamming17123", "etsi.fec.hamming_16_11_4:Hamming16114",
+                  "protocols.hytera.rrs_datagram_protocol:RRSDatagramProtocol", "transmission.terminal:Terminal", "storage.repeater_storage:RepeaterStorage"):
             try:
                 L(p)
             except Exception:
